@@ -230,6 +230,191 @@ def generate(seed, count, fragment, tables=4):
     return out
 
 
+def _compose_block(g, rng, subs, depth, maxlen, minlen=1, inloop=False):
+    """Statements of a compose block: wait/log/require/durations/if/while/do S.../terminate."""
+    out = []
+    for _ in range(rng.randint(minlen, maxlen)):
+        kinds = ["wait", "wait", "log", "waitfor", "waituntil", "require"]
+        if subs:
+            kinds += ["sdo", "sdo", "sdo", "sdofor", "sdountil"]
+        if depth < 2:
+            kinds += ["if", "while"]
+        if depth == 0:
+            kinds += ["end"]
+        k = rng.choice(kinds)
+        if k == "wait":
+            out.append(["wait"])
+        elif k == "log":
+            out.append(["log", g.lab()])
+        elif k == "waitfor":
+            n, u = g.dur()
+            out.append(["waitfor", n, u])
+        elif k == "waituntil":
+            out.append(["waituntil", g.cond()])
+        elif k == "require":
+            out.append(["require", rng.choice(g.conds + ["T", "T", "T"])])
+        elif k == "end":
+            out.append([rng.choice(["terminate", "termsim"])])
+            break
+        elif k == "if":
+            out.append(["if", g.cond(), _compose_block(g, rng, subs, depth + 1, 2),
+                        _compose_block(g, rng, subs, depth + 1, 1) if rng.random() < 0.4 else []])
+        elif k == "while":
+            out.append(["while", rng.choice(g.conds + ["T"]), [["wait"]] + _compose_block(g, rng, subs, depth + 1, 2, minlen=0, inloop=True)])
+        else:
+            ss = rng.sample(subs, rng.randint(1, min(2, len(subs))))
+            if k == "sdo":
+                out.append(["sdo", ss])
+            elif k == "sdofor":
+                n, u = g.dur()
+                out.append(["sdofor", ss, n, u])
+            else:
+                out.append(["sdountil", ss, g.cond()])
+    return out
+
+
+def gen_nested(rng):
+    """A program with nested scenarios: a top-level scenario with a compose block invoking
+    sub-scenarios (which have their own monitors, records, terminate-when / terminate-simulation-
+    when / terminate-after statements and possibly compose blocks invoking further scenarios)."""
+    horizon = rng.randint(4, 7)
+    cnames = [f"c{i}" for i in range(rng.randint(2, 4))]
+    g = G(rng, cnames, "core")
+    nmain = rng.randint(1, 2)
+    nmon = rng.randint(1, 3)
+    defs = []
+    for d in range(1, nmain + nmon + 1):
+        ismon = d > nmain
+        body = g.block(0, [], ismon, False, False, 3, minlen=1)
+        if not _has_yield(body):
+            body.insert(0, g.yielding(ismon))
+        defs.append({"pre": [], "inv": [], "body": body})
+    mons = list(range(nmain + 1, nmain + nmon + 1))
+    nsd = rng.randint(2, 4)
+    sdefs = []
+    for s in range(1, nsd + 1):
+        later = list(range(s + 1, nsd + 1))  # a scenario only invokes later ones: no recursion
+        istop = s == 1
+        hascompose = istop or rng.random() < 0.55
+        compose = _compose_block(g, rng, later, 0, 4 if istop else 3) if hascompose else []
+        if hascompose and not _has_yield_compose(compose):
+            compose.insert(0, ["wait"])
+        records = []
+        if rng.random() < 0.4:
+            records.append(["rec", f"r{s}"])
+        if istop and rng.random() < 0.3:
+            records.append(["init", "rinit"])
+        if istop and rng.random() < 0.3:
+            records.append(["final", "rfinal"])
+        mymons = []
+        if mons and rng.random() < (0.5 if istop else 0.4):
+            mymons.append(mons.pop(0))
+        sd = {
+            "pre": [rng.choice(["T", "T", "T"] + cnames)] if (not istop and rng.random() < 0.2) else [],
+            "termWhen": [rng.choice(cnames)] if rng.random() < 0.35 else [],
+            "termSimWhen": [rng.choice(cnames)] if rng.random() < 0.2 else [],
+            "termAfter": [rng.randint(0, 3), rng.choice(["steps", "seconds"])] if rng.random() < 0.35 else [],
+            "records": records, "monitors": mymons, "hascompose": hascompose, "compose": compose,
+        }
+        if not istop and not hascompose and not sd["termWhen"] and not sd["termAfter"]:
+            sd["termAfter"] = [rng.randint(1, 3), "steps"]
+        sdefs.append(sd)
+    used = {m for sd in sdefs for m in sd["monitors"]}
+    # unused monitor definitions would be printed as behaviours nobody uses: harmless, keep
+    nobj = rng.randint(nmain, 3)
+    agents = list(range(1, nmain + 1)) + [0] * (nobj - nmain)
+    rng.shuffle(agents)
+    case = {
+        "defs": defs, "agents": agents, "sdefs": sdefs, "top": 1,
+        "monitors": sorted(used), "records": [], "termWhen": [], "termSimWhen": [], "termAfter": [],
+        "maxSteps": horizon, "dt": rng.choice(DTS), "table": _table(rng, cnames, horizon),
+        "sched": _sched(rng, nobj), "impl": 0,
+    }
+    return case
+
+
+def _has_yield_compose(stmts):
+    for s in stmts:
+        if s[0] in ("wait", "waitfor", "waituntil", "sdo", "sdofor", "sdountil", "terminate", "termsim"):
+            return True
+        if s[0] == "if" and (_has_yield_compose(s[2]) or _has_yield_compose(s[3])):
+            return True
+        if s[0] == "while" and _has_yield_compose(s[2]):
+            return True
+    return False
+
+
+def generate_nested(seed, count, tables=3):
+    rng = random.Random(seed)
+    out = []
+    for _ in range(count):
+        case = gen_nested(rng)
+        out.append(case)
+        names = [n for n in case["table"] if n not in ("T", "F")]
+        for _k in range(tables - 1):
+            c2 = dict(case)
+            c2["table"] = _table(rng, names, case["maxSteps"])
+            c2["sched"] = _sched(rng, len(case["agents"]))
+            out.append(c2)
+    return out
+
+
+def nested_core():
+    """Targeted nested-scenario cases: every statement a sub-scenario's setup block may contain
+    (terminate when / terminate simulation when / terminate after / record / monitor), a sub-scenario
+    with and without compose block, parallel sub-scenarios, do ... for/until over scenarios, a
+    monitor of a sub-scenario that terminates it."""
+    cases = []
+    beh = {"pre": [], "inv": [], "body": [["while", "T", [["take", 1]]]]}
+    mon_log = {"pre": [], "inv": [], "body": [["while", "T", [["log", "m"], ["wait"]]]]}
+    mon_term = {"pre": [], "inv": [], "body": [["wait"], ["log", "mt"], ["terminate"]]}
+    mon_ts = {"pre": [], "inv": [], "body": [["wait"], ["wait"], ["termsim"]]}
+
+    def sd(**kw):
+        d = {"pre": [], "termWhen": [], "termSimWhen": [], "termAfter": [], "records": [], "monitors": [],
+             "hascompose": False, "compose": []}
+        d.update(kw)
+        return d
+
+    subs = [
+        sd(termWhen=["c"]), sd(termSimWhen=["c"]), sd(termAfter=[2, "steps"]), sd(termAfter=[1, "seconds"]),
+        sd(records=[["rec", "rs"]], termAfter=[2, "steps"]),
+        sd(monitors=[2], termAfter=[3, "steps"]),
+        sd(monitors=[3], hascompose=True, compose=[["while", "T", [["wait"], ["log", "sub"]]]]),
+        sd(monitors=[4], hascompose=True, compose=[["while", "T", [["wait"]]]]),
+        sd(hascompose=True, compose=[["log", "s0"], ["wait"], ["log", "s1"], ["wait"], ["log", "s2"]]),
+        sd(hascompose=True, compose=[["wait"], ["terminate"], ["log", "never"]]),
+        sd(hascompose=True, compose=[["wait"], ["termsim"]]),
+        sd(hascompose=True, compose=[["require", "c"], ["wait"], ["require", "c"], ["wait"]]),
+    ]
+    tops = [
+        [["log", "a"], ["sdo", [2]], ["log", "b"], ["wait"], ["log", "c"]],
+        [["sdo", [2, 3]], ["log", "b"], ["wait"]],
+        [["sdofor", [2], 2, "steps"], ["log", "b"], ["wait"], ["wait"]],
+        [["sdountil", [2], "d"], ["log", "b"], ["wait"]],
+        [["wait"], ["sdo", [2]], ["sdo", [2]], ["log", "b"]],
+    ]
+    tables = [
+        {"c": [False, False, True, True, True, True, True, True], "d": [False, False, False, True]},
+        {"c": [True], "d": [False]},
+        {"c": [False], "d": [False, True]},
+    ]
+    for sub in subs:
+        for top in tops:
+            for tab in tables[: (2 if top is not tops[0] else 3)]:
+                sdefs = [sd(hascompose=True, compose=top, records=[["rec", "rt"]]), sub,
+                         sd(hascompose=True, compose=[["log", "p0"], ["wait"], ["log", "p1"]])]
+                t = {"T": [True], "F": [False]}
+                t.update(tab)
+                cases.append({
+                    "defs": [beh, mon_log, mon_term, mon_ts], "agents": [1], "sdefs": sdefs, "top": 1,
+                    "monitors": sorted({m for s_ in sdefs for m in s_["monitors"]}), "records": [], "termWhen": [],
+                    "termSimWhen": [], "termAfter": [], "maxSteps": 7, "dt": [1, 2] if sub["termAfter"][1:] == ["seconds"] else [1, 1],
+                    "table": t, "sched": [[1]], "impl": 0,
+                })
+    return cases
+
+
 def duration_core():
     """Exhaustive core for durations: every duration construct x n in 0..3 x unit x time step,
     with a parent that acts in the step control returns to it."""
